@@ -73,6 +73,7 @@ Proof.
   unfold nisp5_verify, nisp5_firsts. intros H.
   destruct (Nat.ltb (length bases) nsm && Nat.ltb (length (ck_g ck)) nsm)%bool; [discriminate|].
   destruct (Nat.eqb_spec (length (sp_s5 p)) (length U)) as [Hl|Hl]; cbn [negb] in H; [|discriminate].
+  destruct (existsb _ _); [discriminate|].
   repeat match type of H with
          | context [bind ?e _] => let E := fresh "E" in destruct e eqn:E; cbn [bind] in H |- *; try discriminate
          end.
